@@ -29,11 +29,68 @@ claim("C05",
   "sequential consistency; elements carry status=closed so the drain loop body is `continue`; the send loop's write of queued polling events is abstracted as 'in flight'; channel contents are counts",
   "DESIGN.md 9/C05", True)
 claim("C15",
-  "Stream-pool ring (push/pop): one inductive step from an arbitrary valid ring state (64-bit cursors symbolic, capacity from a listed set) with a symbolic operation sequence against a FIFO model: nothing popped twice, nothing lost, errPoolFull only when full.",
-  "ring part only (C15(a)); the pool's interaction with stream/session state is not covered by this check",
+  "Stream-pool ring (push/pop): one inductive step from an arbitrary valid ring state (64-bit cursors symbolic, capacity from a listed set) with a symbolic operation sequence against a FIFO model; SessionManager.GetStream/PutBack over the session model: histories of get/request/deliver/answer/read/put-back/peer-close by two callers: every stream handed out is open, on a live session, carries no old bytes, is clean, is not held by the other caller; active-stream count == held + pooled after every step. One genuine defect found and fixed (discarded pooled streams were not closed).",
+  "sequential histories; concurrency of callers is covered only through the lock discipline of the ring (not checked here); session loss not in the histories",
   "DESIGN.md 9/C15")
 
+claim("C03",
+  "Real createBufferManager/createFreeBufferList/mappingBufferManager/mappingFreeBufferList on small memory lengths (shape) with 1-3 fully symbolic (size, percent) uint32 pairs (sizes <= capacity, sorted or not, arbitrary old memory contents): create fails with an error or every symbolic slot of every class lies inside the mapping behind its headers, classes are disjoint, the created list header is as specified, and the peer's mapping yields the same classes, capacities, offsets; real createQueueManagerWithMemFd/mappingQueueManagerMemfd over an OS model: extents, capacities, cross-wiring (what A sends B receives and vice versa, same cells).",
+  "memory lengths from a listed set up to 300 bytes (the full-width 2^32 arithmetic is NOT claimed); OS model: mapping the same fd yields the same region (assumed kernel guarantee); file back-end differs only in OS calls and is not run",
+  "DESIGN.md 15.3/C03")
+claim("C06",
+  "Writer side: up to W calls of WriteBytes/Reserve/WriteByte/WriteString of every size class relative to the slice capacities, flush points, every slice-size configuration and exhaustion degree, through the real transport (Stream.Flush -> queue or socket fallback -> handleEvents/handlePolling/handleFallbackData -> pendingData.moveTo); reader side: ReadBytes/Peek/Discard/ReadByte/ReadString/Read of every size; bytes are symbolic and compared position by position with a byte-queue model; Len == flushed - consumed after every call; everything comes back after release.",
+  "shape bounds as in evidence (calls, sizes, configurations); Session.waitForSend is stubbed to an ordered wire; reads never exceed what was delivered (blocking reads are C11)",
+  "DESIGN.md 15.3/C06")
+claim("C07",
+  "Session model histories (real OpenStream/WriteBytes/Flush/handleEvents/ReadBytes/Close on two real sessions over one buffer manager and a cross-wired queue pair): a stream only ever reads bytes written to it, in flush order, across shared-memory and fallback transport; reads after a peer close drain what was flushed before reporting the end.",
+  "sequential histories only (one step at a time): the concurrent orderings named in the property (close overtaking data while another stream keeps the consumer busy) are NOT covered; 1-2 streams",
+  "DESIGN.md 15.3/C07")
+claim("C08",
+  "ReadBytes/Peek results are remembered across further reads of every kind and across unrelated allocate/scribble/recycle activity on the same buffer manager: contents stay equal to the model bytes and the slot a zero-copy result lives in is never on its class's free chain until ReleasePreviousRead; afterwards all buffers are available again.",
+  "single stream; the interference is a harness loop over the real pop/recycleBuffer; close/late-data interplay is not covered",
+  "DESIGN.md 15.3/C08")
+claim("C09",
+  "Session model histories of up to L real API steps on 1-2 streams (write+flush of sizes that use one slice, several slices or the socket fallback; deliver either direction; reads; release; close on either end at any point; queue-full), then wind-down: both ends close everything, all events are delivered, and every size class must again have its full free count with a consistent free chain.",
+  "sequential histories (no concurrency between the steps); callback mode and pooled streams are not in this harness (pool: see C15)",
+  "DESIGN.md 15.3/C09")
+claim("C10",
+  "Same histories: stream state only moves forward (monitor after every step); after a local Close the stream is closed, absent from the session, Flush fails with ErrStreamClosed and drops its data, reads fail; after delivery the peer is not open any more and reads report the end after draining; repeated Close returns nil; no active stream is left on either side after wind-down.",
+  "synchronous mode only, sequential histories: Close from inside OnData, simultaneous closes and the callback reports (OnLocalClose/OnRemoteClose) are NOT covered",
+  "DESIGN.md 15.3/C10")
+claim("C13",
+  "Real handleEvents and every protocol handler (polling, stream close, fallback data, hot restart incl. the posted lambda and SessionManager.handleEvent/handleSessionManagerHotRestart, hot restart ack) on an arbitrary byte string (length = shape, bytes symbolic) for four session roles: no panic (index, slice, nil, makeslice, type assertion, nil func), consumed within the buffer. Two genuine defects were found and fixed (known_findings.json).",
+  "post-handshake events only: the handshake readers and the chunking differential (commitRead) are not covered by this harness (the reader bookkeeping is C18); queue empty; goroutines started by handlers are not run; recover() is modelled as 'no panic to recover': every panic is a violation",
+  "DESIGN.md 15.3/C13")
+claim("C18",
+  "Real connEventHandler.write/writev/doWritev against a kernel model that accepts any prefix, answers EAGAIN or fails per call (pattern = shape): bytes reach the socket exactly once, in order; real onReadReady/maybeExpandReadBuffer/commitRead with chunked kernel reads and partial consumption: the callback always sees exactly the unconsumed bytes followed by the new ones, offsets stay inside the buffer, growth preserves content.",
+  "small buffers and messages (shape bounds); the 1 MiB data threshold and the 4 MiB shrink path are not reached; concurrent senders (writer exclusion through Session.writing) are NOT covered",
+  "DESIGN.md 15.3/C18")
+claim("C19",
+  "streamWrapper over the session model: Write delivers all of p or fails, Read returns 1..len(p) bytes in order (0 for empty p), Close is idempotent and releases exactly one reference (WaitGroup never negative); Stream.Read contract for all slice layouts (C06 reader harness); every stream surfaces once through AcceptStream in sequential histories - with one KNOWN FINDING (late data for a stream the server already closed re-creates it).",
+  "Listen/Accept over real unix sockets, the listener's accept loop and reference counting goroutines, deadlines are NOT covered",
+  "DESIGN.md 15.3/C19")
+
+claim("C16",
+  "Decidable fragment (bookkeeping): real Listener.HotRestart / Session.hotRestart / handleHotRestartAck / checkHotRestart / resetState with acknowledgements in any order, missing, or carrying a foreign epoch: one request per session, a second request is rejected while in progress, a foreign epoch changes no field, the ack count never goes negative, and the watcher always leaves the hot-restart state (done when every ack arrived, reset on timeout). Client side: real handleHotRestart + posted lambda + handleSessionManagerHotRestart + SessionManager.checkHotRestart with a stubbed newClientSession that may fail: a stale epoch changes nothing, moved pools carry a session of the announced epoch, old sessions are kept unclosed, one ack per session when all moved, the manager leaves the hot-restart state.",
+  "tickers deliver two ticks and then the paired timeout fires (time is not modelled otherwise); newClientSession is a stub: that the new session reaches the NEW server and that GetStream works at every moment are NOT covered; goroutines are run by the harness at one point",
+  "DESIGN.md 15.3/C16")
+
+claim("C11",
+  "Sequential fragment: a blocking call whose releasing event has already happened returns at once with the right result (enough data -> nil; peer close -> drained then ErrEndOfStream; local close -> closed-stream error; session close -> error and AcceptStream returns; deadline -> ErrTimeout, and no timeout when data is there; Flush returns although the queue stays full). In addition every sequential harness of this tree carries 'noblock' obligations on every lock, channel, select and WaitGroup wait it reaches.",
+  "NOT covered: the interleaving of the releasing event with the caller entering its wait (missed-notification windows), elapsed time ('within a bounded time', 'never early'), handshake time-outs; timers are modelled as expired, selects take the first ready case in source order",
+  "DESIGN.md 15.3/C11")
+claim("C14",
+  "Containment and resource census over an OS model (sequential): shared memory created by the real initMemManager (memfd) and mapped by the real mappingQueueManagerMemfd / getGlobalBufferManagerWithMemFd; one stream with a message in flight / delivered / partly read; then the connection reports remote close, or Close, or exitErr; the posted teardown lambdas run: nothing panics, the session is closed, Close is idempotent and the teardown is posted once, pending and later stream calls fail, exactly one close callback, no new stream, the peer session closes too, and the OS model's census of descriptors and mappings is back to zero.",
+  "NOT covered: Close concurrent with traffic (use-after-unmap races), a really killed process, real /proc census, the /dev/shm file back-end; OS model: Mmap of the same fd yields the same region, descriptors received over the socket are modelled as extra references",
+  "DESIGN.md 15.3/C14")
+claim("C20",
+  "Callback mode with the callback goroutine run to completion at the point where fillDataToReadBuffer starts it (one schedule): for every message size, delivery grouping and consumption pattern (everything / one byte per call / everything and Close inside OnData) and peer close: OnData never nests, bytes are offered in order and never twice, at quiescence every flushed byte has been offered and nothing is left in the receive buffer or pending list, nothing is offered after close.",
+  "NOT covered: the interleavings of message arrivals on the event loop with a running callback (the callbackInProcess hand-off windows named in the property) - the engine's thread model does not cover Go-heap state shared between goroutines; this is the single-schedule data path only",
+  "DESIGN.md 15.3/C20")
+
 NOT_APPLICABLE = {
+ "C12": "the handshake needs two blocking parties alternating over a pipe plus descriptor passing; the engine has no coroutines / blocking threads over Go-heap FIFOs, and splitting Init by hand would no longer execute the real functions; only the 'both ends map the same memory' fact is asserted inside the C14 harness over the OS model",
+ "C17": "wall-clock healing behaviour of SessionManager.background against a real listener (timers, net.Dial, contexts): no input/schedule space a bounded symbolic encoding decides (DESIGN.md section 10)",
 }
 
 def main():
